@@ -629,7 +629,14 @@ void cmi_process_cancel_awaiteds(struct cmb_process *pp)
         else if (pa->type == CMI_PROCESS_AWAITABLE_RESOURCE) {
             cmb_assert_debug(pa->ptr != NULL);
             struct cmb_resourceguard *rgp = pa->ptr;
-            (void)cmb_resourceguard_remove(rgp, pp);
+            if (!cmb_resourceguard_remove(rgp, pp)) {
+                /*
+                 * No longer in the queue: It had just been granted its demand,
+                 * the wakeup call (cancelled below) was on its way. Pass the
+                 * turn on to the next in line instead of losing it.
+                 */
+                (void)cmb_resourceguard_signal(rgp);
+            }
         }
         else if (pa->type == CMI_PROCESS_AWAITABLE_PROCESS) {
             /* Waits for a process to end, remove ourselves from the waiter list */
